@@ -215,3 +215,32 @@ func VsymC04() {
 }
 
 func init() { vsymHarnesses["VsymC04"] = VsymC04 }
+
+// VsymC04Values: attribute values are compared byte for byte - near misses inside a value (doubled, leading,
+// trailing or other white space, letter case, a missing character) are rejected; spacing around the
+// separators of the identity is not part of any value.
+func VsymC04Values() {
+	leaf := &x509.Certificate{}
+	leafO := []string{"Acme Corp", "Acme  Corp", "acme"}[vr.Choice("leafO", 3)]
+	leaf.Subject = pkix.Name{Country: []string{"US"}, Province: []string{"WA"}, Organization: []string{leafO}}
+	idO := []string{"Acme Corp", "Acme  Corp", "Acme Corp ", " Acme Corp", "Acme\tCorp", "AcmeCorp", "acme corp", "Acme Cor", "acme", "ACME"}[vr.Choice("identityO", 10)]
+	sep := []string{",", ", ", " , "}[vr.Choice("separator", 3)]
+	// leading / trailing blanks of a value are written escaped, as RFC 4514 requires
+	esc := idO
+	if len(esc) > 0 && esc[0] == ' ' {
+		esc = "\\" + esc
+	}
+	if len(esc) > 1 && esc[len(esc)-1] == ' ' {
+		esc = esc[:len(esc)-1] + "\\ "
+	}
+	id := "x509.subject:C=US" + sep + "ST=WA" + sep + "O=" + esc
+	err := verifyX509TrustedIdentities("p", []string{id}, []*x509.Certificate{leaf})
+	vr.Assert((err == nil) == (idO == leafO), "an identity matches only if every attribute value equals the leaf's byte for byte")
+	if err == nil {
+		vr.Reach("value matched")
+	} else {
+		vr.Reach("near miss rejected")
+	}
+}
+
+func init() { vsymHarnesses["VsymC04Values"] = VsymC04Values }
